@@ -8,6 +8,7 @@ open SamVerif.C01
 #print axioms ptr_of_hasTy
 #print axioms seqAssign_eq_par_partial
 #print axioms seqAssign_eq_par_counterexample
+#print axioms lowered_update_parallel
 #print axioms tailrec_equiv_par
 #print axioms tailrec_equiv_seq
 #print axioms tailrec_stmt_equiv
